@@ -46,7 +46,7 @@ CHECKS = {
          "explicit-state exploration (DFS over directory snapshots, memoised) of the real on-disk prunable PMMRBackend through the chain's usage protocol against an unpruned reference MMR",
          "c08",
          "For a fixed-size and a variable-size element type, every history of up to 3 (quick) / 4 (thorough) units of work - optional block-by-block rewind to any earlier boundary not below the compaction cutoff, then one or two blocks of appends and removals of any <= 2 live leaves, then sync or discard - interleaved with up to two compactions at any boundary and a reopen, is executed on the real backend; after every step the view through PMMR::at must equal an unpruned reference: root, size, data and hash of every live leaf, None for spent leaves, a verifying Merkle proof for every live leaf, leaf_pos_iter, leaf_idx_iter(from) for every from, n_unpruned_leaves, PMMR::validate.",
-         "Rewinds stay at or above the last compaction cutoff and precede the appends of a unit (the store's usage protocol). The snapshot parts open a fresh backend object per step (memoisation on directory contents is then sound) from the empty backend and from one holding spent leaves; the live parts keep ONE backend object along every path of 4 (quick) / 6 (thorough) ops over a narrower alphabet that includes units which do not rewind and read-only units, so that state kept in memory between units of work is explored. Chain-level compaction: C02 compaction part and C09 compaction scenarios.",
+         "Rewinds stay at or above the last compaction cutoff and precede the appends of a unit (the store's usage protocol). The snapshot parts open a fresh backend object per step (memoisation on directory contents is then sound) from the empty backend and from one holding spent leaves; the live parts keep ONE backend object along every path of 4 (quick) / 5 (thorough) ops over a narrower alphabet that includes units which do not rewind and read-only units, so that state kept in memory between units of work is explored. Chain-level compaction: C02 compaction part and C09 compaction scenarios.",
          "DESIGN.md §4 C08"),
  "C09": ("fault_enumeration",
          "exhaustive crash-point enumeration: every durable step of each scenario is a kill point (child process aborted by hook), judged by reopen + validate + reference unspent set + re-delivery vs uninterrupted twin",
